@@ -1,6 +1,7 @@
 mod cfgbuild;
 mod configfile;
 mod console;
+mod consolestream;
 mod envexpand;
 mod fanout;
 mod filetrace;
@@ -49,6 +50,8 @@ fn main() {
         "timetrig" => timetrig::main(rest),
         "console" => console::main(rest),
         "console-child" => console::child(rest),
+        "constream" => consolestream::main(rest),
+        "constream-child" => consolestream::child(rest),
         "jsonline" => jsonline::main(rest),
         "pattern" => pattern::main(rest),
         "width" => pattern::main_width(rest),
